@@ -9,7 +9,7 @@
    for that element; a request the model refuses (theorems C11_*_refused) must be answered with an error. The int64 boundary (zoom > 31
    for the encoder hook, indices beyond 2^40) and over-size calls are not judged: bad-case, resp. class "skipped". *)
 From Coq Require Import ZArith Lia String List Bool Floats.
-From SID Require Import Base Str Ids ZoomCore AltKeyCore Wire F64 Quadkey QuadkeyConv.
+From SID Require Import Base Str Ids ZoomCore AltKeyCore Wire F64 Quadkey QuadkeyConv QuadkeyObj.
 Import ListNotations.
 Open Scope Z_scope.
 
@@ -783,9 +783,84 @@ Proof.
   - intros (A & N & B & C). split; [exact A|split; [split; [exact N|]|exact C]]. intros s. rewrite B. symmetry. apply R.
 Qed.
 
+(* ---------- Params: the quadkey-side objects, constructor + setter sequences read back through every getter ----------
+   args [slices; steps]: slices = the caller's [][2]int64 values; step = [target slot 0/1; kind; ...] (see dec_step).
+   observed [snapshots; final slices]: after every step both objects through all their getters ([int64 getters; float getters; InnerIDList()]),
+   at the end the caller's slices (a write through the slice a getter returned must be visible to the caller: same backing array).
+   The specification of these record-like objects is the model itself (QuadkeyObj.v: each setter updates exactly its field, heights bit for bit
+   and independent of each other, the slice is stored without copying); corr = prop = observation equals the model's read-back. *)
+Definition dec_nat (v : val) : option nat := match v with VZ z => if 0 <=? z then Some (Z.to_nat z) else None | _ => None end.
+Definition dec_ref (v : val) : option (option nat) :=
+  match v with VZ z => if z =? -1 then Some None else if 0 <=? z then Some (Some (Z.to_nat z)) else None | _ => None end.
+Definition dec_step (v : val) : option (bool * step) :=
+  match v with
+  | VL (VZ t :: VS k :: a) =>
+      let tb := negb (t =? 0) in
+      match a with
+      | [VZ qz; r; VZ vz; VF mx; VF mn] =>
+          if String.eqb k "NewV" then match dec_ref r with Some rr => Some (tb, SNewV qz rr vz mx mn) | None => None end else None
+      | [VZ qz; r; VZ az; VZ e; VZ off] =>
+          if String.eqb k "NewA" then match dec_ref r with Some rr => Some (tb, SNewA qz rr az e off) | None => None end else None
+      | [VZ qz; VZ key; VZ vz; VZ vi; VF mx; VF mn] => if String.eqb k "NewQ" then Some (tb, SNewQ qz key vz vi mx mn) else None
+      | [VS name; VZ z] => if String.eqb k "SetZ" then Some (tb, SSetZ name z) else None
+      | [VS name; VF f] => if String.eqb k "SetF" then Some (tb, SSetF name f) else None
+      | [r] => if String.eqb k "SetInner" then match dec_ref r with Some rr => Some (tb, SSetInner rr) | None => None end else None
+      | [sid; idx; VZ q; VZ kk] =>
+          if String.eqb k "CallerWrite" then match dec_nat sid, dec_nat idx with Some a1, Some a2 => Some (tb, SCallerWrite a1 a2 (q, kk)) | _, _ => None end
+          else None
+      | [idx; VZ q; VZ kk] =>
+          if String.eqb k "GetterWrite" then match dec_nat idx with Some a2 => Some (tb, SGetterWrite a2 (q, kk)) | None => None end else None
+      | _ => None
+      end
+  | _ => None
+  end.
+Definition dec_pairs (v : val) : option (list pair) := match as_L v with Some l => all_opt (map dec_pair l) | None => None end.
+Definition dec_store (v : val) : option store := match as_L v with Some l => all_opt (map dec_pairs l) | None => None end.
+Definition enc_pairs (l : list pair) : val := VL (map (fun p => VL [VZ (fst p); VZ (snd p)]) l).
+Definition enc_snap (sn : snap) : val := let '(zs, fs, ps) := sn in VL [of_LZ zs; VL (map VF fs); enc_pairs ps].
+Definition snap_eqb (sn : snap) (v : val) : bool :=
+  let '(zs, fs, ps) := sn in
+  match v with
+  | VL [oz; VL ofs; op] =>
+      match as_LZ oz, all_opt (map as_F ofs), dec_pairs op with
+      | Some z', Some f', Some p' => list_eqb Z.eqb zs z' && list_eqb feqb_bits fs f' && list_eqb pair_eqb ps p'
+      | _, _, _ => false
+      end
+  | _ => false
+  end.
+Fixpoint all2 {A B} (f : A -> B -> bool) (la : list A) (lb : list B) : bool :=
+  match la, lb with
+  | [], [] => true
+  | a :: ra, b :: rb => f a b && all2 f ra rb
+  | _, _ => false
+  end.
+Definition params_eqb (m : list (snap * snap) * store) (obs : val) : bool :=
+  match obs with
+  | VL [VL osn; ost] =>
+      all2 (fun sn v => match v with VL [a; b] => snap_eqb (fst sn) a && snap_eqb (snd sn) b | _ => false end) (fst m) osn &&
+      match dec_store ost with Some st => list_eqb (list_eqb pair_eqb) (snd m) st | None => false end
+  | _ => false
+  end.
+Definition d_params (args : list val) (obs : val) : verdict :=
+  if is_skipped obs then bad_case else       (* the invoker refused a step list that is not well formed (shrinker only) *)
+  match args with
+  | [sl; VL steps] =>
+      match dec_store sl, all_opt (map dec_step steps) with
+      | Some st, Some l =>
+          if Nat.ltb 64 (List.length l) then bad_case else
+          match run_steps None None st l with
+          | Some m => let ok := params_eqb m obs in
+                      mkv ok ok "-" (VL [VL (map (fun sn => VL [enc_snap (fst sn); enc_snap (snd sn)]) (fst m)); VL (map enc_pairs (snd m))])
+          | None => bad_case
+          end
+      | _, _ => bad_case
+      end
+  | _ => bad_case
+  end.
+
 Definition table_C11 : table :=
   [("HorizontalIDToQuadkey", fun _ => d_encode); ("QuadkeyToHorizontalID", fun _ => d_decode);
    ("QuadkeyRoundTrip", fun _ => d_roundtrip_key); ("DeleteDuplicationList", fun _ => d_dedup);
    ("QuadkeyCheckZoom", fun _ => d_qcheck);
    ("E2Q", fun _ => d_e2q); ("S2Q", fun _ => d_s2q); ("E2QA", fun _ => d_e2qa);
-   ("Q2E", fun _ => d_q2e); ("Q2S", fun _ => d_q2s); ("RoundTrip", fun _ => d_roundtrip)]%string.
+   ("Q2E", fun _ => d_q2e); ("Q2S", fun _ => d_q2s); ("RoundTrip", fun _ => d_roundtrip); ("Params", fun _ => d_params)]%string.
